@@ -34,6 +34,12 @@ class RawX12File(object):
         self.fd = fin
         self.buffer = None
         line = self.fd.read(ISA_LEN)
+        while len(line) < ISA_LEN:
+            # a stream may return fewer characters than requested before EOF
+            more = self.fd.read(ISA_LEN - len(line))
+            if not more:
+                break
+            line += more
         if line[:3] != 'ISA':
             err_str = "First line does not begin with 'ISA': %s" % line[:3]
             raise pyx12.errors.X12Error(err_str)
@@ -58,9 +64,12 @@ class RawX12File(object):
         Split the input stream on the delimiter and remove any leading CR-LF
         """
         while True:
-            if self.buffer.find(self.seg_term) == -1:
+            while self.buffer.find(self.seg_term) == -1:
                 # Need more data
-                self.buffer += self.fd.read(DEFAULT_BUFSIZE)
+                more = self.fd.read(DEFAULT_BUFSIZE)
+                if not more:
+                    break
+                self.buffer += more
             if self.buffer.find(self.seg_term) == -1:
                 # Still have no segment terminator
                 break
